@@ -850,6 +850,18 @@ def Vector_ok (u0 : Nat) (u1 : Nat) (u2 : Nat) (u3 : Nat) : Bool :=
 def tbl_okPanicFree : (List (List Nat)) :=
   [([67, 86, 83, 83, 50, 48, 46, 71, 101, 116] : List Nat), ([67, 86, 83, 83, 50, 48, 46, 83, 101, 116] : List Nat), ([69, 114, 114, 73, 110, 118, 97, 108, 105, 100, 77, 101, 116, 114, 105, 99, 46, 69, 114, 114, 111, 114] : List Nat), ([97, 112, 112] : List Nat), ([114, 111, 117, 110, 100, 84, 111, 49, 68, 101, 99, 105, 109, 97, 108] : List Nat), ([118, 97, 108, 105, 100, 97, 116, 101] : List Nat)]
 
+/-- functions containing a pre-sized buffer `make([]T, 0, cap)` (one entry per occurrence) -/
+def pkg_presized : List String :=
+  ["CVSS20.Vector", "CVSS20.Vector_ok"]
+
+/-- every mention of package unsafe (function or `decl`:unsafe.X, one entry per occurrence) -/
+def pkg_unsafe_all : List String :=
+  ["CVSS20.Vector:unsafe.Pointer"]
+
+/-- sha256 (first 16 hex digits) of each verification hooks file -/
+def hook_sha : List String :=
+  []
+
 /-- import paths of the package's source files (alias=path when renamed) -/
 def pkg_imports : List String :=
   ["errors", "fmt", "math", "strings", "sync", "unsafe"]
